@@ -188,6 +188,14 @@ func alphabet() []call {
 			f, err := rw.Sniff(strings.NewReader(tvDocs[i%len(tvDocs)]))
 			return fmt.Sprintf("%s/%v", f, err != nil)
 		}},
+		{"Sniff(tag-value, version on a later line)", func(i int) string {
+			f, err := rw.Sniff(strings.NewReader("SPDXVersion: SPDX-2.1\nx\n\"SPDX-2.3\"\n"))
+			return fmt.Sprintf("%s/%v", f, err != nil)
+		}},
+		{"Sniff(quoted version only)", func(i int) string {
+			f, err := rw.Sniff(strings.NewReader("# c\n'SPDX-2.2'\n"))
+			return fmt.Sprintf("%s/%v", f, err != nil)
+		}},
 		{"ParseStream(private)", func(i int) string {
 			d, err := reader.New().ParseStream(bytes.NewReader(spdxBytes[i]))
 			if err != nil {
